@@ -545,7 +545,7 @@ def _world(rng, tier, index, res, tr, ch):
         """two parties import the same JWKS of symmetric keys (no kids in it) independently: each names the keys alike, so what one
         produces without a kid the other resolves"""
         n = erng.randrange(2, 5)
-        secrets_ = [K.make_oct(erng.sub("shared%d-%d" % (sim.events, i)), erng.pick([16, 32, 48])) for i in range(n)]
+        secrets_ = [K.make_oct(erng.sub("shared%d-%d" % (sim.events, i)), erng.pick([16, 32, 48, 9, 20, 33])) for i in range(n)]
         doc = {"keys": [rk.to_jwk(k, True) for k in secrets_]}
         res.fired("shared-secret-jwks-without-kid")
         res.case(index, sim.events, "shared-secret-jwks")
@@ -570,6 +570,24 @@ def _world(rng, tier, index, res, tr, ch):
             ch.force = None
             if got != b"shared":
                 viol("consume-jws:rejected-resolvable", "a token one party made with key %d of the shared set is not resolved by the other party's import: %r" % (forced, got), repro)
+                return
+        # the same set as a set of passwords (any length is a password): password-based encryption without a kid picks one of them
+        alg = erng.pick(["PBES2-HS256+A128KW", "PBES2-HS384+A192KW", "PBES2-HS512+A256KW"])
+        for forced in range(n):
+            ch.force = forced
+            ch.calls.clear()
+            try:
+                tok = jwe.encrypt_compact({"alg": alg, "enc": "A128GCM", "p2c": 3}, b"shared", a, algorithms=ALLJWE)
+                offered = sorted(j.kid for j in (ch.calls[-1] if ch.calls else []))
+                got = jwe.decrypt_compact(tok, b, algorithms=ALLJWE).plaintext
+            except Exception as e:
+                got, offered = "%s: %s" % (type(e).__name__, e), None
+            ch.force = None
+            if got != b"shared":
+                viol("produce-jwe:refused", "password-based encryption through a set of %d shared secrets (no kid) does not produce a token the other party opens: %r" % (n, got), repro)
+                return
+            if offered is not None and offered != sorted(ka):
+                viol("produce-jwe:candidates", "random pick for %s was offered %r, the symmetric keys of the set are %r" % (alg, offered, sorted(ka)), repro)
                 return
 
     def appended_key():
